@@ -1235,12 +1235,12 @@ NESTED_KEY = "lazy_cache:nested_stages_share_cache_file"
 BASE_SIZES = {1: 3, 2: 2, 3: 2}
 
 
-def _cfg_cache(ctx, name, maxobjs, maxmerges, nested, dirs, depth, invs, nbase=2):
+def _cfg_cache(ctx, name, maxobjs, maxmerges, nested, dirs, depth, invs, nbase=2, stage_names=True):
     p = os.path.join(ctx.work, "lazycache_%s.cfg" % name)
     with open(p, "w") as f:
         f.write(
-            "CONSTANTS NBase = %d\n Batches = {2, 3}\n MaxObjs = %d\n MaxMerges = %d\n AllowNested = %s\n MergeNames = TRUE\n Dirs = {%s}\n MaxDepth = %d\n"
-            % (nbase, maxobjs, maxmerges, "TRUE" if nested else "FALSE", ", ".join(map(str, dirs)), depth)
+            "CONSTANTS NBase = %d\n Batches = {2, 3}\n MaxObjs = %d\n MaxMerges = %d\n AllowNested = %s\n StageNames = %s\n MergeNames = TRUE\n Dirs = {%s}\n MaxDepth = %d\n"
+            % (nbase, maxobjs, maxmerges, "TRUE" if nested else "FALSE", "TRUE" if stage_names else "FALSE", ", ".join(map(str, dirs)), depth)
         )
         f.write("INIT Init\nNEXT Next\nCONSTRAINT DepthBound\n")
         for i in invs:
@@ -1364,7 +1364,7 @@ def _hist_cache(path):
 
 def lazy_cache_part(ctx, binder, quick):
     D = binder.D
-    flat = ["TypeOK", "UseFaithfulFlat", "KeysDistinctFlat", "FilesTruthfulFlat"]
+    flat = ["TypeOK", "UseFaithful", "KeysDistinct", "FilesTruthful"]  # theorems of StageNames = TRUE, nested chains included
     depth = 6 if quick else 7
     dot = os.path.join(ctx.work, "lazycache.dot")
     r = tlc.run("LazyCache", _cfg_cache(ctx, "graph", 3, 1, True, (2,), depth, flat), work=ctx.work, workers=1, timeout=1800, dump_dot=dot)
@@ -1373,7 +1373,7 @@ def lazy_cache_part(ctx, binder, quick):
     r.coverage = final_coverage(r)
     ctx.tlc(r, "LazyCache objs<=3 merges<=1 nested depth<=%d" % depth, vacuity_actions=["Use", "SetCachedFile", "Merge", "Replace", "Wrap"])
     if not quick:
-        for nm, mo, mm, nested, dirs, dp in (("full3", 3, 1, True, (1, 2), 1000), ("deep4", 4, 2, False, (2,), 7)):
+        for nm, mo, mm, nested, dirs, dp in (("full3", 3, 1, True, (1, 2), 1000), ("deep4", 4, 2, True, (2,), 7)):
             r2 = tlc.run("LazyCache", _cfg_cache(ctx, nm, mo, mm, nested, dirs, dp, flat), work=ctx.work, workers=12, timeout=2400)
             if r2.violation:
                 raise tlc.MachineryError("LazyCache (%s) violates its own theorem %s" % (nm, r2.violation))
@@ -1393,7 +1393,7 @@ def lazy_cache_part(ctx, binder, quick):
             if len(lst) < per_class:
                 lst.append((u, lab, v))
     wd = os.path.join(ctx.work, "lazycache")
-    walks = uses = drift = nested_hits = 0
+    walks = uses = nested_hits = 0
     validated = 0
     import shutil
 
@@ -1416,29 +1416,50 @@ def lazy_cache_part(ctx, binder, quick):
                     if not got["eager_ok"]:
                         _viol(ctx, "lazy_cache:%s:eval" % hist, {"history": hist})
                         break
-                    if not got["ok"]:
-                        if want["ok"]:
-                            _viol(ctx, "lazy_cache:%s" % hist, {"history": hist, "delivered(level,samples)": got["read"], "own(level,samples)": [want["own"][0], list(want["own"][1])], "cache_files": got["files"]})
-                        elif in_chain:
-                            nested_hits += 1
-                            _viol(ctx, NESTED_KEY, {"history": hist, "delivered(level,samples)": got["read"], "own(level,samples)": [want["own"][0], list(want["own"][1])], "cache_files": got["files"]})
-                        else:
-                            _viol(ctx, "lazy_cache:%s" % hist, {"history": hist, "note": "loss also predicted by the model outside nested stages"})
-                        break
                     if not want["ok"]:
-                        drift += 1  # the model predicts a stale file, the code delivers the right content
-                        if drift <= 3:
-                            ctx.notes.append("model_drift: LazyCache predicts a stale cache file at %s, the code delivers the object's own content" % hist)
+                        raise tlc.MachineryError("LazyCache graph contains an unfaithful use at %s although UseFaithful was checked" % hist)
+                    if not got["ok"]:
+                        own = (want["own"][0], tuple(want["own"][1]))
+                        detail = {"history": hist, "delivered(level,samples)": got["read"], "own(level,samples)": [own[0], list(own[1])], "cache_files": got["files"]}
+                        if in_chain and got["read"] != own:
+                            # a stage of a nested chain delivers foreign content: the collision repaired by e54b9e2 is back
+                            nested_hits += 1
+                            _viol(ctx, NESTED_KEY, detail)
+                        else:
+                            _viol(ctx, "lazy_cache:%s" % hist, detail)
+                        break
+                    if got["read"] != (want["read"][0], tuple(want["read"][1])):
+                        _viol(ctx, "lazy_cache:%s:content" % hist, {"history": hist, "delivered(level,samples)": got["read"], "spec": [want["read"][0], list(want["read"][1])]})
                         break
                     validated += 1
-                    if got["read"] != (want["read"][0], tuple(want["read"][1])):
-                        drift += 1
+            except tlc.MachineryError:
+                raise
             except Exception as ex:  # noqa: BLE001
                 _viol(ctx, "lazy_cache:%s:raise" % _hist_cache(path), {"error": repr(ex)[:300]})
             finally:
                 shutil.rmtree(cdir, ignore_errors=True)
     ctx.count(uses, distinct_key=("lazy_cache", len(classes)))
-    ctx.part("lazy_cache", graph_states=len(states), use_edge_classes=len(classes), walks=walks, uses_observed=uses, nested_finding_hits=nested_hits, model_drift=drift)
+    # sensitivity probe: the model of the code before e54b9e2 (one name for all stages) is refuted by TLC,
+    # and its counterexample must not reproduce on the code
+    rp = tlc.run("LazyCache", _cfg_cache(ctx, "legacy_names", 3, 1, True, (2,), 6, ["UseFaithful"], stage_names=False), work=ctx.work, workers=1, timeout=900, expect_violation=True, coverage=False)
+    if rp.violation != "UseFaithful" or not rp.trace:
+        raise tlc.MachineryError("LazyCache with StageNames = FALSE is expected to violate UseFaithful; TLC says %r" % rp.violation)
+    path = [(None, (a, tuple(g)), None) for a, g, _ in rp.trace[1:]]
+    hist = _hist_cache(path)
+    cdir = os.path.join(wd, "probe") + os.sep
+    world = CacheLayerWorld(D, cdir)
+    got = None
+    try:
+        for _, (act, args), _ in path:
+            got = world.step(act, args)
+    finally:
+        shutil.rmtree(cdir, ignore_errors=True)
+    reproduced = bool(got is not None and not got["ok"])
+    if reproduced:
+        nested_hits += 1
+        _viol(ctx, NESTED_KEY, {"history": hist, "via": "counterexample of the model with one name for all stages", "delivered(level,samples)": got["read"], "cache_files": got["files"]})
+    ctx.cov["tlc_runs"].append({"run": "LazyCache StageNames=FALSE UseFaithful (expected refutation)", "violated": rp.violation, "history": hist, "wall_s": round(rp.wall, 2)})
+    ctx.part("lazy_cache", graph_states=len(states), use_edge_classes=len(classes), walks=walks, uses_observed=uses, nested_regression_hits=nested_hits, legacy_counterexample=hist, legacy_counterexample_reproduces_on_code=reproduced)
     ctx.sample({"op": "LazyCache", "history": "S1.2;U1.2;M1.2;U3.2", "meaning": "file cache set on sample 1, used at batch 2 (file n1_2 written), merged with sample 2 (name n1_n0... distinct file), merge used at batch 2: own content, 5 events"})
     return validated
 
